@@ -38,8 +38,13 @@ for k in ks:
     meta = json.load(open(f"{out}/meta.json"))
     ex_cmd = meta.get("existing_tests_cmd", "cargo test --offline -p scylla --lib")
     demo_cmd = meta.get("demo_cmd")
+    def norm(c):
+        c = re.sub(r"^\s*((?:[A-Z_]+=\S+\s+)+)", "", c or "")      # drop VAR=... prefixes (own env is used)
+        c = re.sub(r"^cd \S+ && ", "", c)
+        return c.strip()
+    ex_cmd, demo_cmd = norm(ex_cmd), norm(demo_cmd)
     for c in (ex_cmd, demo_cmd):
-        assert c and c.strip().startswith("cargo test"), c
+        assert c.startswith("cargo test"), c
     jobs = " -j6"
     res = {}
     clean()
